@@ -529,6 +529,29 @@ func c22Gen(r *Rng, tier string, emit func(string)) {
 			}
 			frames(max, cs)
 		}
+		// a limit at (or just above) the length of one of the messages, the whole stream legal under it: through the real
+		// readLoop with the read ending 1, 2, 3 or 4 bytes before the end of each frame — a legal partial frame of
+		// length L occupies up to L+3 bytes of the connection buffer (its length prefix is still there)
+		if max != defMax && len(stream) <= 3000 {
+			legal := true
+			for _, m := range msgs {
+				if len(m)-4 > max {
+					legal = false
+				}
+			}
+			if legal {
+				off := 0
+				for _, m := range msgs {
+					off += len(m)
+					for d := 1; d <= 4; d++ {
+						if off-d > 0 {
+							emit("readloop " + strconv.Itoa(max) + " " + chunkStr(cutAt(stream, []int{off - d})))
+						}
+					}
+				}
+				emit("readloop " + strconv.Itoa(max) + " " + chunkStr([][]byte{stream}))
+			}
+		}
 		// the real readLoop (bufio + readData + buffer + decodeData + msgChan) over scripted reads of a well-formed
 		// stream, optionally followed by the beginning of one more message; every frame fully received must have
 		// been handed over when the peer goes idle, whatever the read sizes (multiples of readData's 1024-byte and
